@@ -715,7 +715,8 @@ fn tent_section(cx: &mut Ctx) {
             }
             let rc = ri.len();
             let long = cx.rng.chance(1, 3);
-            let wc = if malformed && cx.rng.chance(1, 4) { rc as u16 + 1 } else { cx.rng.range(0, rc as i64) as u16 };
+            let wc = if (malformed && cx.rng.chance(1, 4)) || cx.rng.chance(1, 6) { rc as u16 + cx.rng.range(1, 4) as u16 } else { cx.rng.range(0, rc as i64) as u16 };
+            cx.st.count(if wc as usize > rc { if long { "row.word-count-beyond-columns.long" } else { "row.word-count-beyond-columns.short" } } else { "row.word-count-within-columns" });
             let wdc = wc | if long { 0x8000 } else { 0 };
             let items = cx.rng.range(0, 3) as u16;
             let row_len = RIvd::delta_row_len(wdc, rc as u16);
@@ -755,6 +756,34 @@ fn tent_section(cx: &mut Ctx) {
                     cx.cw.push(format!("CRow {} {} {} {} {}", wdc, ri.len(), cbytes(data), inner, czlist(row.iter().map(|v| *v as i128))));
                 }
             }
+        }
+        // compute_delta straight from the raw subtables (row decoding + accumulation in one model function)
+        let craw = format!(
+            "{} {}",
+            clist(regions.iter(), creg),
+            clist(subs.iter(), |s| match s {
+                None => "None".to_string(),
+                Some((items, wdc, ri, data)) => format!(
+                    "(Some {{| rs_item_count := {}; rs_wdc := {}; rs_regions := {}; rs_data := {} |}})",
+                    items, wdc, czlist(ri.iter().map(|v| *v as i128)), cbytes(data)),
+            })
+        );
+        for _ in 0..3 {
+            let outer = cx.rng.below(nsub as u64 + 1) as u16;
+            let inner = cx.rng.below(5) as u16;
+            let coords = gen_coords(cx, &regions, axes);
+            let res = real_compute_delta(&bytes, outer, inner, &coords);
+            cx.st.evaluations += 1;
+            let out = match &res {
+                Ok(Some(v)) => vec![*v as i128],
+                Ok(None) => vec![],
+                Err(_) => vec![-999],
+            };
+            if res.is_err() {
+                cx.st.oracle_failure(json!({"key": "compute_delta-panic", "what": "compute_delta panics on an assembled store", "outer": outer, "inner": inner, "coords": coords}));
+            }
+            cx.st.count("delta.raw-case");
+            cx.cw.push(format!("CDeltaRaw {} {} {} {} {}", craw, outer, inner, cz16(&coords), czlist(out)));
         }
         // deltas
         let Some(ds) = decode_store(&store) else {
@@ -996,7 +1025,7 @@ fn builder_section(cx: &mut Ctx) {
             }
         }
         // model case: the builder itself (small stores only)
-        if small && ds.data.iter().all(|s| s.is_some()) {
+        if small {
             let mut partition: Vec<Vec<(u16, u32)>> = vec![vec![]; ds.data.len()];
             let mut ok = true;
             for (id, (o, inn)) in &built.remap {
@@ -1021,6 +1050,34 @@ fn builder_section(cx: &mut Ctx) {
                 ));
                 cx.st.count("ivs.model-case");
             }
+        }
+    }
+    // encodings with exactly / about 0xFFFF rows (MAX_ITEMS): group A (two columns, 3 bytes a row) is cheaper than
+    // group B (one 32-bit column) and is therefore encoded first; merging them would cost more than it saves
+    let fulls: &[(usize, usize)] = if cx.thorough { &[(65535, 5), (65536, 5), (65534, 3), (65535, 0), (131070, 4), (131071, 2)] } else { &[(65535, 5), (65536, 3), (65535, 0)] };
+    for (na, nb) in fulls {
+        let pool: Vec<Reg> = vec![vec![(0, 16384, 16384)], vec![(-16384, -16384, 0)], vec![(0, 8192, 16384)]];
+        let mut inputs: Vec<Vec<(usize, i32)>> = (0..*na).map(|i| vec![(0, 128 + (i % 32000) as i32), (1, 1 + (i / 32000) as i32)]).collect();
+        inputs.extend((0..*nb).map(|j| vec![(2usize, 100000 + j as i32)]));
+        let label = format!("full{}+{}", na, nb);
+        match run_builder(1, &pool, &inputs, false) {
+            Ok(b) => {
+                if let Some(ds) = retrieval_oracle(cx, &b, false, &label) {
+                    cx.st.count("ivs.store.exactly-or-about-0xFFFF-rows");
+                    let out: Vec<i128> = ds.data.iter().map(|s| s.as_ref().map(|s| s.item_count as i128).unwrap_or(-1)).collect();
+                    let mut sizes = vec![*na as i128];
+                    if *nb > 0 {
+                        sizes.push(*nb as i128);
+                    }
+                    cx.cw.push(format!("CChunks {} {}", czlist(sizes), czlist(out.clone())));
+                    // the property's wording, directly: no NULL subtable, none above 0xFFFF rows, row counts add up
+                    let total: i128 = out.iter().filter(|v| **v >= 0).sum();
+                    if out.iter().any(|v| *v < 0 || *v > 0xFFFF) || total != (*na + *nb) as i128 {
+                        cx.st.oracle_failure(json!({"key": "ivs-split", "what": "0xFFFF split produced a NULL / oversized subtable or lost rows", "case": label, "item_counts": format!("{:?}", out)}));
+                    }
+                }
+            }
+            Err(e) => cx.st.oracle_failure(json!({"key": "ivs-build-fails:full", "what": "builder fails around 0xFFFF rows", "case": label, "error": e})),
         }
     }
     // stores with more than 65 535 distinct rows: the 0xFFFF split (thorough tier only)
@@ -1192,6 +1249,11 @@ fn hvar_section(cx: &mut Ctx) {
             continue;
         };
         let Ok(fr) = FontRef::new(&font) else { continue };
+        if let Some(mf) = extract_mfont(&fr) {
+            let gids: Vec<u32> = (0..nglyphs as u32 + 2).collect();
+            let locs: Vec<Vec<i16>> = vec![vec![0], vec![16384], vec![-16384], vec![8192], vec![12288], vec![cx.rng.range(-16384, 16384) as i16], vec![]];
+            metrics_queries(cx, "synthetic", &fr, &mf, &gids, &locs);
+        }
         for c in [0i16, 16384, -16384, 8192, 4096, 12288, -8192, 1, 16383, cx.rng.range(-16384, 16384) as i16] {
             let coords = [F2Dot14::from_bits(c)];
             for (size, div, sname) in [(Size::unscaled(), 1.0f32, "unscaled"), (Size::new(62.5), 16.0f32, "ppem62.5")] {
@@ -1263,6 +1325,197 @@ fn hvar_section(cx: &mut Ctx) {
     }
 }
 
+// =====================================================================================
+// G. metrics glue on parsed fonts: model term + independent reference
+// =====================================================================================
+struct MFont {
+    glyph_count: u32,
+    upem: u16,
+    hm: Vec<(u16, i16)>,
+    lsbs: Vec<i16>,
+    /// (decoded store, adv map, lsb map); map = (fmt, count, data)
+    hvar: Option<(DStore, Option<(u8, u32, Vec<u8>)>, Option<(u8, u32, Vec<u8>)>)>,
+    has_gvar: bool,
+    axes: usize,
+}
+fn dsim_parts(m: Option<Result<RDsim, read_fonts::ReadError>>) -> Option<(u8, u32, Vec<u8>)> {
+    match m {
+        Some(Ok(RDsim::Format0(f))) => Some((f.entry_format().bits(), f.map_count() as u32, f.map_data().to_vec())),
+        Some(Ok(RDsim::Format1(f))) => Some((f.entry_format().bits(), f.map_count(), f.map_data().to_vec())),
+        _ => None,
+    }
+}
+fn extract_mfont(fr: &FontRef) -> Option<MFont> {
+    use read_fonts::TableProvider;
+    let hmtx = fr.hmtx().ok()?;
+    let hvar = match fr.hvar() {
+        Ok(h) => {
+            let store = h.item_variation_store().ok()?;
+            Some((decode_store(&store)?, dsim_parts(h.advance_width_mapping()), dsim_parts(h.lsb_mapping())))
+        }
+        Err(_) => None,
+    };
+    Some(MFont {
+        glyph_count: fr.maxp().map(|m| m.num_glyphs() as u32).unwrap_or(0),
+        upem: fr.head().map(|h| h.units_per_em()).unwrap_or(0),
+        hm: hmtx.h_metrics().iter().map(|m| (m.advance(), m.side_bearing())).collect(),
+        lsbs: hmtx.left_side_bearings().iter().map(|l| l.get()).collect(),
+        hvar,
+        has_gvar: fr.gvar().is_ok(),
+        axes: fr.fvar().map(|f| f.axis_count() as usize).unwrap_or(0),
+    })
+}
+fn cdsim(m: &Option<(u8, u32, Vec<u8>)>) -> String {
+    match m {
+        None => "None".to_string(),
+        Some((f, c, d)) => format!("(Some ({}, {}, {}))", f, c, cbytes(d)),
+    }
+}
+fn cmfont(f: &MFont) -> String {
+    format!(
+        "{{| mf_glyph_count := {}; mf_upem := {}; mf_h_metrics := {}; mf_lsbs := {}; mf_hvar := {} |}}",
+        f.glyph_count,
+        f.upem,
+        clist(f.hm.iter(), |(a, l)| format!("({}, {})", a, cz(*l as i128))),
+        czlist(f.lsbs.iter().map(|v| *v as i128)),
+        match &f.hvar {
+            None => "None".to_string(),
+            Some((st, a, l)) => format!("(Some {{| hv_store := {}; hv_adv_map := {}; hv_lsb_map := {} |}})", cstore(st), cdsim(a), cdsim(l)),
+        }
+    )
+}
+fn mfont_cells(f: &MFont) -> usize {
+    f.hm.len() + f.lsbs.len() + f.hvar.as_ref().map(|(st, a, l)| {
+        st.data.iter().flatten().map(|s| s.rows.iter().map(|r| r.len() + 1).sum::<usize>() + s.ridx.len()).sum::<usize>()
+            + st.regions.iter().map(|r| r.len() * 3).sum::<usize>()
+            + a.as_ref().map(|m| m.2.len()).unwrap_or(0) + l.as_ref().map(|m| m.2.len()).unwrap_or(0)
+    }).unwrap_or(0)
+}
+/// own unpacking of a DeltaSetIndexMap entry (the OpenType text): last entry beyond the count
+fn ref_index(m: &(u8, u32, Vec<u8>), gid: u32) -> Option<(usize, usize)> {
+    let (fmt, count, data) = m;
+    if *count == 0 {
+        return None;
+    }
+    let es = ((fmt >> 4) & 3) as usize + 1;
+    let bits = (fmt & 15) as u32 + 1;
+    let i = gid.min(count - 1) as usize;
+    let e = data.get(i * es..i * es + es)?.iter().fold(0u64, |a, b| a << 8 | *b as u64);
+    Some(((e >> bits) as usize, (e & ((1u64 << bits) - 1)) as usize))
+}
+/// reference delta for a row of the decoded store at coords: (exact integer if all regions single-axis, float sum, tolerance)
+fn ref_row_delta(st: &DStore, ix: (usize, usize), coords: &[i16]) -> Option<(Option<i128>, f64, f64)> {
+    let sub = st.data.get(ix.0)?.as_ref()?;
+    let Some(row) = sub.rows.get(ix.1) else { return Some((Some(0), 0.0, 0.0)) };
+    let pairs: Vec<(i32, &Reg)> = row.iter().zip(sub.ridx.iter()).map(|(d, r)| st.regions.get(*r as usize).map(|reg| (*d, reg))).collect::<Option<_>>()?;
+    let (sum, tol, exact) = delta_reference(&pairs, coords);
+    Some((exact, sum, tol))
+}
+
+/// queries every (gid, coords) through skrifa GlyphMetrics at two sizes; pushes one model case per size and checks the
+/// unscaled values against the independent reference. `known` = the recorded 16.16 range limits apply (synthetic fonts)
+fn metrics_queries(cx: &mut Ctx, name: &str, fr: &FontRef, mf: &MFont, gids: &[u32], locs: &[Vec<i16>]) {
+    use skrifa::instance::{LocationRef, Size};
+    use skrifa::MetadataProvider;
+    let small = mfont_cells(mf) <= 40000;
+    for (size, ppem64, sname) in [(Size::unscaled(), None, "unscaled"), (Size::new(16.0), Some(1024i64), "ppem16")] {
+        let mut queries = vec![];
+        for loc in locs {
+            let coords: Vec<F2Dot14> = loc.iter().map(|c| F2Dot14::from_bits(*c)).collect();
+            let gm = fr.glyph_metrics(size, LocationRef::new(&coords));
+            for gid in gids {
+                let adv = gm.advance_width(GlyphId::new(*gid));
+                let lsb = gm.left_side_bearing(GlyphId::new(*gid));
+                cx.st.evaluations += 1;
+                let bits = |v: Option<f32>| -> i128 {
+                    match v {
+                        None => -999999,
+                        Some(x) => {
+                            let b = (x as f64 * 65536.0).round() as i128;
+                            // f32 holds 24 significant bits: larger raw values were rounded by to_f32 (not modelled)
+                            if b.abs() < (1 << 24) || b % 65536 == 0 { b } else { -888888 }
+                        }
+                    }
+                };
+                queries.push(format!("({}, {}, {}, {})", gid, cz16(loc), cz(bits(adv)), cz(bits(lsb))));
+                // independent reference (unscaled only): hmtx rule + index map rule + spec delta
+                if ppem64.is_none() && *gid < mf.glyph_count {
+                    let g = *gid as usize;
+                    let base_adv = mf.hm.get(g).map(|m| m.0).or(mf.hm.last().map(|m| m.0)).unwrap_or(0) as i64;
+                    let base_lsb = mf.hm.get(g).map(|m| m.1).or(mf.lsbs.get(g.saturating_sub(mf.hm.len())).copied()).unwrap_or(0) as i64;
+                    cx.st.count(if g >= mf.hm.len() { "metrics.gid-beyond-long-metrics" } else { "metrics.gid-long-metric" });
+                    let zero = loc.iter().all(|c| *c == 0);
+                    for (which, base, got, map) in [("advance", base_adv, adv, 0), ("lsb", base_lsb, lsb, 1)] {
+                        let Some((st, am, lm)) = &mf.hvar else {
+                            if !mf.has_gvar && got != Some(base as f32) {
+                                cx.st.oracle_failure(json!({"key": format!("metrics-{}-no-hvar", which), "font": name, "gid": gid, "want": base, "got": format!("{:?}", got)}));
+                            }
+                            continue;
+                        };
+                        let ix = if zero { None } else if map == 0 {
+                            match am { Some(m) => { if *gid >= m.1 { cx.st.count("metrics.gid-beyond-advance-map"); } ref_index(m, *gid) }, None => Some((0usize, g & 0xFFFF)) }
+                        } else {
+                            match lm { Some(m) => ref_index(m, *gid), None => None }
+                        };
+                        let (exact, sum, tol) = match ix { Some(ix) => ref_row_delta(st, ix, loc).unwrap_or((Some(0), 0.0, 0.0)), None => (Some(0), 0.0, 0.0) };
+                        let Some(g) = got else {
+                            cx.st.oracle_failure(json!({"key": format!("metrics-{}-none", which), "font": name, "gid": gid}));
+                            continue;
+                        };
+                        let ok = match exact {
+                            Some(d) => { cx.st.count("metrics.ref-exact"); d.abs() >= 32768 || (base as i128 + d).abs() >= 32768 || g as f64 == (base as i128 + d) as f64 }
+                            None => { cx.st.count("metrics.ref-rational"); sum.abs() >= 32000.0 || (g as f64 - (base as f64 + sum)).abs() <= tol + 1.0 }
+                        };
+                        if !ok {
+                            cx.st.oracle_failure(json!({"key": format!("metrics-{}", which), "what": "metric is not base + HVAR delta at the (clamped) index", "font": name, "gid": gid, "coords": loc, "base": base, "delta_exact": format!("{:?}", exact), "delta_sum": sum, "got": g}));
+                        }
+                    }
+                }
+            }
+        }
+        if small && (mf.hvar.is_some() || !mf.has_gvar) {
+            cx.st.count(&format!("metrics.model-case.{}", sname));
+            for chunk in queries.chunks(60) {
+                cx.cw.push(format!("CFontMetrics {} {} {}", cmfont(mf), match ppem64 { Some(p) => format!("(Some {})", p), None => "None".to_string() }, clist(chunk.iter(), |q| q.clone())));
+            }
+        } else {
+            cx.st.count("metrics.model-case-skipped");
+        }
+    }
+}
+
+fn fonts_section(cx: &mut Ctx) {
+    let dir = "/repo/font-test-data/test_data/ttf";
+    let mut names: Vec<String> = std::fs::read_dir(dir).map(|rd| rd.flatten().map(|e| e.file_name().to_string_lossy().to_string()).collect()).unwrap_or_default();
+    names.sort();
+    for name in names {
+        let Ok(bytes) = std::fs::read(format!("{}/{}", dir, name)) else { continue };
+        let Ok(fr) = FontRef::new(&bytes) else { continue };
+        let Some(mf) = extract_mfont(&fr) else { continue };
+        if mf.axes == 0 {
+            continue;
+        }
+        cx.st.count(if mf.hvar.is_some() { "fonts.variable-with-hvar" } else if mf.has_gvar { "fonts.variable-gvar-only" } else { "fonts.variable-no-metrics-variation" });
+        let n = mf.glyph_count;
+        let mut gids: Vec<u32> = vec![0, 1, n.saturating_sub(1), n, n + 1, mf.hm.len() as u32, (mf.hm.len() as u32).saturating_sub(1)];
+        if let Some((_, Some(m), _)) = &mf.hvar {
+            gids.extend([m.1.saturating_sub(1), m.1, m.1 + 1]);
+        }
+        let extra = if cx.thorough { 60 } else { 20 };
+        for _ in 0..extra {
+            gids.push(cx.rng.below(n as u64 + 1) as u32);
+        }
+        gids.sort();
+        gids.dedup();
+        let mut locs: Vec<Vec<i16>> = vec![vec![0; mf.axes], vec![16384; mf.axes], vec![-16384; mf.axes]];
+        for _ in 0..(if cx.thorough { 12 } else { 5 }) {
+            locs.push((0..mf.axes).map(|_| match cx.rng.below(5) { 0 => 0, 1 => 16384, 2 => -16384, 3 => 8192, _ => cx.rng.range(-16384, 16384) as i16 }).collect());
+        }
+        locs.push(vec![8192]); // fewer coords than axes (or exactly one)
+        metrics_queries(cx, &name, &fr, &mf, &gids, &locs);
+    }
+}
+
 fn main() {
     silence_panics();
     let args: Vec<String> = std::env::args().collect();
@@ -1283,6 +1536,7 @@ fn main() {
     builder_section(&mut cx);
     dsim_section(&mut cx);
     hvar_section(&mut cx);
+    fonts_section(&mut cx);
     let shards = cx.cw.finish();
     cx.st.v.insert("shards".into(), shards.into());
     cx.st.v.insert("model_cases".into(), cx.cw.len().into());
